@@ -20,6 +20,34 @@ TEXT = {
          "capture the defining environment and are applied in it independently of the caller, self/outer references, the "
          "selection / indexing rule of every callable kind. That the implementation computes what the model computes is "
          "the correspondence on generated programs.", "5 C02"),
+ 'C03': ("Theorems about the coroutine trees of the model: for each position the specification declares non-strict "
+         "(unselected Boolean branch, operands after the deciding one of Boolean ㄱ/ㄷ, list elements, unused arguments, "
+         "operands of ㄴ after a difference, the handler of a ㅅㄷ that does not raise) the tree is literally independent of "
+         "what is there, and delayed expressions are evaluated only by force nodes (C13). Implementation: every payload "
+         "variant (throwing, ill-typed, diverging to the evaluator limit, …) must behave like a harmless literal.", "5 C03"),
+ 'C04': ("The model has no host-crash outcome: every built-in is a total function into the coroutine monad; theorems: every "
+         "built-in failure carries marker 5 + a class code of error.py (regenerated table) + a location, ㅅㄷ / ㄱㄹ handlers "
+         "receive every exception whatever its contents, syntax errors are language exceptions. That the implementation "
+         "raises no host exception is established by the call-shape matrix of the correspondence (every callee × arity × "
+         "argument kind × edge value, file handle states, failing imports).", "5 C04"),
+ 'C05': ("Invariant proofs over the model of interpret.evaluate, generic in the coroutines: tail return replaces the frame "
+         "(height unchanged), closure / Boolean calls end in a delayed expression (so they are tail returns), the stack "
+         "height is below MAX_STACK_SIZE (regenerated from the source) in every reachable running state, the limit report "
+         "arises only on a push. Host-stack behaviour (not representable) is exercised by a loop ladder to 10^4 / 10^6 "
+         "iterations; two host-recursion defects are recorded findings.", "5 C05"),
+ 'C10': ("Theorems: ㄷㅈ raises exactly the given exception, ㅅㄷ returns the deep-forced value or calls the handler with "
+         "the very exception raised, operands are forced with the propagating continuation and bind passes exceptions "
+         "through, an exception without pending handler leaves the frame / reaches the top, failed cells fail identically "
+         "again. Implementation: faults planted in 52 strict positions with nested payloads, caught and uncaught.", "5 C10"),
+ 'C13': ("Theorems over the evaluator model: a demand for a completed cell is served from the cell (value or identical "
+         "exception) with no new frame / start / event, frames created for completed cells return the cache, interpretation "
+         "starts only on incomplete cells, a finished frame's cell and its requestor receive the outcome. Implementation: "
+         "observer event streams equal the model's; no expression has two evaluations with children; doubling / fan-out "
+         "families are linear.", "5 C13"),
+ 'C19': ("Invariant proofs: depth = Σ|debug_stack|, one entry per frame; the event log is a balanced bracket word whose open "
+         "brackets are the pending evaluations (replay function); depth 0 and all brackets closed when evaluation ends with "
+         "a value or exception; step commutes with forgetting the observer's state (transparency). Implementation streams "
+         "are compared event by event with the model's and checked by an independent nesting monitor.", "5 C19"),
  'C08': ("Theorems for all integers / all digit words: decode∘encode = id, characterisation of all spellings, encoder "
          "shortest; name tables regenerated from the source are canonical spellings so lookups depend on the value only.", "5 C08"),
  'C09': ("Theorems for all trees: parse∘unparse = id (spans included), stack effect and totality of every word with the "
